@@ -362,6 +362,67 @@ fn iter_case(kind: Src, n: usize, ops: &[IOp]) -> R {
     Ok(digest(&(kind as u8, n, trace)))
 }
 
+
+/// zero-sized items with a destructor (created when the source is pulled): ops 0 next via a new wrapper, 1 two nexts
+/// through one wrapper, 2 next on the source, 3 wrapper.nth(1), 4 wrapper.take(2).count(), 5 release the oldest held item
+fn zst_iter_case(n: usize, ops: &[u8]) -> R {
+    use instr::DcZst;
+    DcZst::reset();
+    let mut src = (0..n).map(|_| DcZst::new());
+    let mut held: Vec<DcZst> = Vec::with_capacity(16);
+    let mut pulled = 0usize;
+    let mut trace = Vec::with_capacity(ops.len());
+    for (step, op) in ops.iter().enumerate() {
+        // model: how many items this op pulls from the source, and how many of those it hands to the caller
+        let left = n - pulled;
+        let (pulls, returns) = match *op {
+            0 | 2 => (left.min(1), left.min(1)),
+            1 => (left.min(2), left.min(2)),
+            3 => (left.min(2), if left >= 2 { 1 } else { 0 }),
+            4 => (left.min(2), 0),
+            _ => (0, 0),
+        };
+        let before = held.len();
+        match *op {
+            0 => {
+                let mut w = CIterator::new(&mut src);
+                held.extend(w.next());
+            }
+            1 => {
+                let mut w = CIterator::new(&mut src);
+                held.extend(w.next());
+                held.extend(w.next());
+            }
+            2 => held.extend(src.next()),
+            3 => {
+                let mut w = CIterator::new(&mut src);
+                held.extend(w.nth(1));
+            }
+            4 => {
+                let w = CIterator::new(&mut src);
+                let c = w.take(2).count();
+                ensure!(c == pulls, "iter:item", "step {}: take(2).count() over a wrapper with {} item(s) left counted {}", step, left, c);
+            }
+            _ => {
+                if !held.is_empty() {
+                    drop(held.remove(0));
+                }
+            }
+        }
+        pulled += pulls;
+        ensure!(held.len() - before.min(held.len()) == returns || *op == 5, "iter:item", "step {} op {}: {} item(s) handed out, the source yields {}", step, op, held.len() as isize - before as isize, returns);
+        let (made, gone) = DcZst::stats();
+        ensure!(made == pulled as u64, "iter:fabricated", "step {} op {}: {} zero-sized item(s) pulled from the source so far, {} were created", step, op, pulled, made);
+        ensure!(gone == (pulled - held.len()) as u64, "iter:item_drop", "step {} op {}: {} zero-sized item(s) pulled, {} still held by the consumer, but {} destroyed (an item must not be destroyed before the consumer lets go of it, nor twice)", step, op, pulled, held.len(), gone);
+        trace.push((made, gone));
+    }
+    drop(src);
+    drop(held);
+    let (made, gone) = DcZst::stats();
+    ensure!(made == gone && made == pulled as u64, "iter:final_drop", "{} zero-sized items created, {} destroyed", made, gone);
+    Ok(digest(&(n, trace)))
+}
+
 fn run(f: impl FnOnce() -> R, nontrivial: bool) -> CaseOut {
     alloc::begin();
     let r = guarded(f);
@@ -402,6 +463,31 @@ fn main() {
                 let sink: Sink = serde_json::from_value(c["sink"].clone()).unwrap();
                 let path: Path = serde_json::from_value(c["path"].clone()).unwrap();
                 run(|| callback_case(c["n"].as_u64().unwrap() as usize, c["stop"].as_u64().unwrap() as usize, sink, path), true)
+            }),
+        },
+        Section {
+            name: "iterators_zst_items",
+            explore: Box::new(|cx: &Cx| {
+                let (n_max, depth) = cx.tier.pick((3, 4), (4, 5));
+                cx.rule("iterators_zst_items", &format!("sources of 0..={} zero-sized items with a destructor (created when pulled) x every sequence of <= {} operations over {{next via a new wrapper, two nexts through one wrapper, next on the source, nth(1), take(2).count(), release a held item}}; oracle after every step: items created == items pulled from the source, items destroyed == pulled - still held by the consumer", n_max, depth));
+                for n in 0..=n_max {
+                    for len in 0..=depth {
+                        for mut idx in 0..6usize.pow(len as u32) {
+                            let mut ops = Vec::with_capacity(len);
+                            for _ in 0..len {
+                                ops.push((idx % 6) as u8);
+                                idx /= 6;
+                            }
+                            let case = json!({"zst_n": n, "zst_ops": ops});
+                            cx.eval("iterators_zst_items", &case, || run(|| zst_iter_case(n, &ops), !ops.is_empty()));
+                        }
+                    }
+                }
+            }),
+            replay: Box::new(|c: &Value| {
+                let ops: Vec<u8> = serde_json::from_value(c["zst_ops"].clone()).unwrap();
+                let n = c["zst_n"].as_u64().unwrap() as usize;
+                run(|| zst_iter_case(n, &ops), true)
             }),
         },
         Section {
